@@ -24,8 +24,10 @@ pub fn c10_parse_permissions() {
 /// layer 2: every command word of the parser table x symbolic argument string x session kind, through process_request;
 /// no panic, and a second client is served normally afterwards
 pub fn c10_handlers() {
-    let n = mk_primary();
+    // a node with its real replication loop (service thread): whatever the command queues for it is processed afterwards
+    let mut n = crate::harness::cluster::mk_cnode("n1", 1u128, ClusterRole::Primary);
     mk_db(&n.dbs, "d", "none");
+    { let mut q = 0; while q < 8 && n.dbs.replication_sender.len() > 0 { crate::harness::cluster::poll_once(&mut n.repl); q += 1; } }
     // pre-state: a resolved and an unresolved conflict record are present (state that arbiter / keys / resolve walk over)
     poke(&n.dbs, "d", "$conflicts_x_1", &String::from("resolved y"), 1, ValueStatus::Ok, 0, 0);
     poke(&n.dbs, "d", "$conflicts_x_2", &String::from("resolve 2 d 1 x a b"), 1, ValueStatus::Ok, 0, 0);
@@ -51,6 +53,14 @@ pub fn c10_handlers() {
     let r = process_request(&line, &n.dbs, &mut c);
     vsym::cover("handler.error-reply", is_error(&r));
     vsym::cover("handler.ok-reply", is_ok(&r));
+    // no service thread dies: the replication loop takes what the command queued (a panic in there is reported like any other)
+    // and is still waiting for more afterwards
+    {
+        let mut q = 0; let mut finished = false;
+        while q < 8 && n.dbs.replication_sender.len() > 0 && !finished { finished = crate::harness::cluster::poll_once(&mut n.repl); q += 1; }
+        vsym::check("service.replication-loop-still-running", !finished);
+        vsym::cover("service.replication-loop-had-work", q > 0);
+    }
     // the node keeps serving other clients
     let r1 = process_request("set p p1", &n.dbs, &mut probe);
     let r2 = process_request("get p", &n.dbs, &mut probe);
